@@ -4,9 +4,11 @@
 usage: try_refactor.py <worktree_dir> <ref_x> <keep-id>
   <worktree_dir>/demo.py (shared) and <worktree_dir>/<ref_x>/{patch.diff,meta.json}
 Fresh scratch worktree of /repo: demo clean exit 0; apply; demo exit 0; baseline unchanged.
-Then git -C /repo apply, all 20 quick checks (--no-write), git -C /repo checkout -- .
+Then all 20 quick checks (--no-write --repo) against a second scratch worktree with the patch (tools/scratch.py); /repo is never written.
 """
 import json, os, shutil, subprocess, sys, tempfile
+sys.path.insert(0, os.path.dirname(os.path.abspath(__file__)))
+from scratch import scratch
 def sh(cmd, cwd=None, **kw):
   return subprocess.run(cmd, cwd=cwd, shell=isinstance(cmd, str), capture_output=True, text=True, **kw)
 wtd, ref, keep = sys.argv[1], sys.argv[2], sys.argv[3]
@@ -34,19 +36,15 @@ finally:
 res['confirmed'] = bool(res.get('applies') and res.get('demo_clean') == 0 and res.get('demo_patched') == 0 and res.get('baseline_ok'))
 alarms = {}
 if res.get('applies'):
-  assert sh('git -C /repo status --porcelain --untracked-files=no').stdout.strip() == ''
-  a = sh(['git', '-C', '/repo', 'apply', patch])
-  try:
-    if a.returncode == 0:
+  with scratch(patch) as (wt2, applied):
+    if applied:
       import concurrent.futures
       def run(p):
-        r = sh(['/verif/check', p, '--no-write'])
+        r = sh(['/verif/check', p, '--no-write', '--repo', wt2])
         return p, r.returncode, [l.strip()[:260] for l in r.stdout.splitlines() if 'rule=' in l or l.strip().startswith('at ') or 'ANALYSIS-ERROR' in l][:6]
       with concurrent.futures.ThreadPoolExecutor(16) as ex:
         for p, c, msg in ex.map(run, ['C%02d' % i for i in range(1, 21)]):
           if c != 0: alarms[p] = {'exit': c, 'msg': msg}
-  finally:
-    sh('git -C /repo checkout -- .')
 res['alarms'] = alarms
 print(json.dumps(res, indent=1))
 dst = os.path.join('/verif/refactors', keep); os.makedirs(dst, exist_ok=True)
